@@ -4,9 +4,12 @@ proof:  PPLV.Props.C16Rebalance over the code-shaped model lean/PPLV/COTree/Reba
         (rebalance, compact_elements_in_the_rightmost_end, redistribute_elements_in_subtree,
         rebuild_bigger_tree, rebuild_smaller_tree/move_data_from, CO_Tree(Iterator, n), insert_precise(_aux),
         erase, go_down_searching_key, the tree_iterator navigation) — all sizes, loops with proved fuel.
-tie:    harness/c16_rows.cc --reb 1 journals after EVERY insert / erase / bulk construction the complete
+tie:    harness/c16_rows.cc --reb 1 journals after EVERY insert / hinted insert (hint = slot index of the iterator,
+        next to the key, stale, or end()) / erase / bulk construction the complete
         layout (indexes[] with the unused markers and both sentinels, data[], reserved_size, max_depth,
-        size_, OK()); the native driver pplv_c16reb runs the model from the previous REAL layout and
+        size_, OK()), and `--rebrow 1` does the same for Sparse_Row histories (insert with/without hint, insert(i), reset(i),
+        reset(iterator), reset_after, delete_element_and_shift, add_zeroes_and_shift, swap_coefficients, find/lower_bound
+        with hints) on the row's tree; the native driver pplv_c16reb runs the model from the previous REAL layout and
         demands the IDENTICAL next layout and returned iterator (the algorithm is deterministic), and
         judges the real output against the ordered-map contract on its own.
 A `contents` / `invariant` / `retmap` mismatch is a property violation with the operation list as
@@ -16,7 +19,7 @@ right map): reported as VIOLATION … no-failing-input-found, as FRAMEWORK.md pr
 import collections, concurrent.futures, json, os, re, shutil, time
 from .common import BUILD
 
-PROPS = ["PPLV.Props.C16Rebalance"]
+PROPS = ["PPLV.Props.C16Rebalance", "PPLV.Props.C16Hint"]   # + PPLV.Props.C16RowOnTree once present (see run)
 PROPERTY_OBLIGATIONS = {"contents", "invariant", "retmap", "crash"}
 
 
@@ -35,11 +38,11 @@ def _pipe(ctx, h, drv, wd, args, tag):
     return j, v
 
 
-def _ops_of(jpath, hid, upto):
+def _ops_of(jpath, hid, upto, tag="L "):
     """operation list (replay lines) of history `hid` up to step `upto`"""
     ops = []
     for line in open(jpath, errors="replace"):
-        if line.startswith("L " + hid + "."):
+        if line.startswith(tag + hid + "."):
             head = line.split("|", 1)[0].split()
             step = int(head[1].split(".")[1])
             if step <= upto:
@@ -76,11 +79,11 @@ def _ddmin(ops, test, budget=60):
     return ops
 
 
-def _replay_ops(ctx, h, drv, wd, ops, tag="rebreplay"):
+def _replay_ops(ctx, h, drv, wd, ops, tag="rebreplay", mode="reb"):
     p = os.path.join(wd, tag + ".ops")
     with open(p, "w") as f:
         f.write("\n".join(ops) + "\n")
-    j, v = _pipe(ctx, h, drv, wd, ["--rebreplay", p], tag)
+    j, v = _pipe(ctx, h, drv, wd, ["--rebrowreplay" if mode == "rebrow" else "--rebreplay", p], tag)
     return _mismatches(v), j
 
 
@@ -94,7 +97,7 @@ def replay(ctx, obj, path):
     os.makedirs(wd)
     ops = obj.get("ops", [])
     print("property=C16 what=%s" % obj.get("what", "-")[:300])
-    mm, _ = _replay_ops(ctx, h, drv, wd, ops, "user-replay")
+    mm, _ = _replay_ops(ctx, h, drv, wd, ops, "user-replay", obj.get("mode", "reb"))
     for i, o, d in mm[:8]:
         print("  MISMATCH %s %s %s" % (i, o, d[:400]), flush=True)
     if not mm:
@@ -107,9 +110,12 @@ def replay(ctx, obj, path):
 
 def run(ctx):
     """returns the list of broken proof obligations (the caller reports them)"""
-    broken = ctx.prove(PROPS)
+    props = list(PROPS)
+    if os.path.exists(os.path.join(os.path.dirname(os.path.dirname(os.path.abspath(__file__))), "lean", "PPLV", "Props", "C16RowOnTree.lean")):
+        props.append("PPLV.Props.C16RowOnTree")
+    broken = ctx.prove(props)
     if ctx.tier == "thorough":
-        broken += ctx.leanchecker(PROPS)
+        broken += ctx.leanchecker(props)
     drv = ctx.ensure_pplv("pplv_c16reb")
     h = ctx.compile_harness("c16_rows.cc")
     wd = os.path.join(BUILD, "run-%s-reb-%d" % (ctx.pid, os.getpid()))
@@ -119,11 +125,13 @@ def run(ctx):
     n_hist = 240 if quick else 4000
     chunk = 20
     t0 = time.time()
-    jobs = [(f, min(n_hist, f + chunk)) for f in range(0, n_hist, chunk)]
+    n_row = 100 if quick else 2000
+    jobs = [("reb", f, min(n_hist, f + chunk)) for f in range(0, n_hist, chunk)]
+    jobs += [("rebrow", f, min(n_row, f + chunk)) for f in range(0, n_row, chunk)]
 
     def one(job):
-        f, l = job
-        return _pipe(ctx, h, drv, wd, ["--reb", "1", "--seed", str(ctx.seed), "--first", str(f), "--last", str(l)], "reb%d" % f)
+        mode, f, l = job
+        return _pipe(ctx, h, drv, wd, ["--" + mode, "1", "--seed", str(ctx.seed), "--first", str(f), "--last", str(l)], "%s%d" % (mode, f))
 
     classes = collections.Counter()
     rs_after = collections.Counter()
@@ -133,13 +141,18 @@ def run(ctx):
     reported = set()
     with concurrent.futures.ThreadPoolExecutor(max_workers=8) as ex:
         results = list(ex.map(one, jobs))
-    for (f, l), (j, v) in zip(jobs, results):
+    row_ops = collections.Counter()
+    for (mode, f, l), (j, v) in zip(jobs, results):
         for line in open(j, errors="replace"):
             if line.startswith("H "):
                 t = line.split()
-                orders["%s/storm%s" % (t[3], t[5] if len(t) > 5 else "?")] += 1
+                if t[2] == "reb":
+                    orders["%s/storm%s" % (t[3], t[5] if len(t) > 5 else "?")] += 1
             elif line.startswith("L "):
                 n_ops += 1
+            elif line.startswith("W "):
+                n_ops += 1
+                row_ops[line.split(" ", 3)[2]] += 1
             elif line.startswith("crash"):
                 crashes += 1
         for line in open(v, errors="replace"):
@@ -169,32 +182,32 @@ def run(ctx):
                     continue
                 reported.add(key)
                 ctx.violation("C16 stage 2: the library crashed / timed out in a rebalancing history (%s)" % lst[0][2][:200],
-                              {"kind": "reb", "ops": [], "harness_args": ["--reb", "1", "--seed", str(ctx.seed), "--first", str(f), "--last", str(l)]},
+                              {"kind": "reb", "ops": [], "harness_args": ["--" + mode, "1", "--seed", str(ctx.seed), "--first", str(f), "--last", str(l)]},
                               found_input=True, record={"site": "CO_Tree rebalance", "tags": ["crash"]})
                 continue
             first = min(lst, key=lambda m: int(m[0].split(".")[1]) if "." in m[0] else 10 ** 9)
             upto = int(first[0].split(".")[1])
-            ops = _ops_of(j, hid, upto)
+            ops = _ops_of(j, hid, upto, "W " if mode == "rebrow" else "L ")
             same_step = [m for m in lst if m[0] == first[0]]
             prop = any(o in PROPERTY_OBLIGATIONS for _, o, _ in same_step)
-            key = ("property" if prop else "layout", ops[-1].split()[0] if ops else "?")
+            key = ("property" if prop else "layout", mode, ops[-1].split()[0] if ops else "?")
             if key in reported:
                 continue
             reported.add(key)
 
             def persists(cand):
-                m2, _ = _replay_ops(ctx, h, drv, wd, cand, "shrink")
+                m2, _ = _replay_ops(ctx, h, drv, wd, cand, "shrink", mode)
                 return any(o in PROPERTY_OBLIGATIONS for _, o, _ in m2) if prop else bool(m2)
 
             small = _ddmin(list(ops), persists) if len(ops) <= 400 else list(ops)
-            mm2, _ = _replay_ops(ctx, h, drv, wd, small, "final")
+            mm2, _ = _replay_ops(ctx, h, drv, wd, small, "final", mode)
             shown = mm2 or same_step
             obs = "; ".join("%s: %s" % (o, d[:500]) for _, o, d in shown[:3])
-            replay_obj = {"kind": "reb", "ops": small, "original_length": len(ops),
+            replay_obj = {"kind": "reb", "mode": mode, "ops": small, "original_length": len(ops),
                           "found_at": "seed %d history %s step %d" % (ctx.seed, hid, upto),
                           "observed": [{"id": i, "obligation": o, "detail": d[:1500]} for i, o, d in shown[:6]],
                           "how_to_replay": "printf '%s\\n' <ops> > f.ops ; c16_rows --rebreplay f.ops | pplv_c16reb"}
-            site = "CO_Tree::%s" % {"ins": "insert", "era": "erase", "bulk": "CO_Tree(Iterator,n)"}.get(key[1], key[1])
+            site = ("Sparse_Row::" if mode == "rebrow" else "CO_Tree::") + "%s" % {"ins": "insert", "insh": "insert(iterator,key,data)", "insh0": "insert(iterator,key)", "era": "erase", "bulk": "CO_Tree(Iterator,n)"}.get(key[2], key[2])
             if prop:
                 ctx.violation("C16 stage 2: after %d operation(s) [%s] the real CO_Tree is not the ordered map / breaks its invariant — %s" % (
                     len(small), " ; ".join(small[-3:])[:200], obs), replay_obj, found_input=True,
@@ -205,7 +218,8 @@ def run(ctx):
                               replay_obj, found_input=False, record={"site": site, "tags": ["layout"]})
     ctx.cov["rebalance_stage2"] = {
         "operations_replayed": n_ops, "identical_layout": n_ok, "mismatching_events": n_bad, "crashes": crashes,
-        "histories": n_hist, "insertion_order/erase_storm": dict(sorted(orders.items())),
+        "histories": n_hist, "sparse_row_histories": n_row, "sparse_row_operations": dict(sorted(row_ops.items())),
+        "insertion_order/erase_storm": dict(sorted(orders.items())),
         "branch_classes": dict(sorted(classes.items())),
         "rebalanced_subtree_height": dict(sorted(heights.items())),
         "reserved_size_after_op": {str(k): rs_after[k] for k in sorted(rs_after)},
